@@ -130,11 +130,51 @@ func locksIn(fn *ssa.Function, entry lockset) map[ssa.Instruction]lockset {
 // entryLocks: for an unexported method/function, the intersection over all static call sites of the
 // caller's lockset translated to the callee's parameter names. Closures and exported functions start empty.
 func entryLocks(c *Ctx, fn *ssa.Function, depth int) lockset {
-	if fn.Parent() != nil || exportedName(fn.Name()) || depth > 3 {
+	if depth > 3 {
+		return lockset{}
+	}
+	if fn.Parent() != nil {
+		// a function literal handed to a lock wrapper (t.locked(func() { … })): it runs with what the wrapper holds around the
+		// call of its parameter
+		return wrapperLocks(c, fn, depth)
+	}
+	if exportedName(fn.Name()) {
 		return lockset{}
 	}
 	var res lockset
 	found := false
+	// a bound method handed to a lock wrapper (t.locked(t.schedule)) is a call site too
+	for _, caller := range c.Funcs {
+		instrs(caller, func(b *ssa.BasicBlock, i int, in ssa.Instruction) {
+			call, ok := in.(*ssa.Call)
+			if !ok {
+				return
+			}
+			for ai, a := range call.Call.Args {
+				mc, ok := a.(*ssa.MakeClosure)
+				if !ok || len(mc.Bindings) != 1 {
+					continue
+				}
+				bf, ok := mc.Fn.(*ssa.Function)
+				if !ok || !strings.HasSuffix(bf.Name(), "$bound") || bf.Object() == nil || bf.Object() != fn.Object() {
+					continue
+				}
+				found = true
+				tr := lockset{}
+				rp := path(mc.Bindings[0])
+				for lk, mode := range heldAroundParam(c, call, ai, depth) {
+					if strings.HasPrefix(lk, rp+".") && len(fn.Params) > 0 {
+						tr[fn.Params[0].Name()+lk[len(rp):]] = mode
+					}
+				}
+				if res == nil {
+					res = tr
+				} else {
+					res = meetLocks(res, tr)
+				}
+			}
+		})
+	}
 	for _, caller := range c.Funcs {
 		if caller == fn {
 			continue
@@ -285,4 +325,120 @@ func (l lockset) heldSuffix(field string, write bool) bool {
 		}
 	}
 	return false
+}
+
+// heldAroundParam: call hands a function value as argument #ai to a static in-module callee H; the locks H certainly holds
+// whenever it calls that parameter, named in the CALLER's terms (H's parameter names replaced by the paths of the arguments).
+// Empty when H does anything with the parameter other than calling it (it may then run later, without the locks).
+func heldAroundParam(c *Ctx, call *ssa.Call, ai int, depth int) lockset {
+	h := staticCallee(&call.Call)
+	if h == nil || h.Blocks == nil || !c.inModule(h) || ai >= len(h.Params) {
+		return lockset{}
+	}
+	h = origin(h)
+	prm := h.Params[ai]
+	if prm.Referrers() == nil {
+		return lockset{}
+	}
+	held := locksIn(h, entryLocks(c, h, depth+1))
+	var res lockset
+	for _, ref := range *prm.Referrers() {
+		if _, isDbg := ref.(*ssa.DebugRef); isDbg {
+			continue
+		}
+		pc, ok := ref.(*ssa.Call)
+		if !ok || pc.Call.Value != ssa.Value(prm) {
+			return lockset{} // stored, passed on, deferred or started as a goroutine
+		}
+		if res == nil {
+			res = held[pc].clone()
+		} else {
+			res = meetLocks(res, held[pc])
+		}
+	}
+	out := lockset{}
+	for lk, mode := range res {
+		for i, a := range call.Call.Args {
+			if i < len(h.Params) {
+				pn := h.Params[i].Name()
+				if strings.HasPrefix(lk, pn+".") {
+					out[path(a)+lk[len(pn):]] = mode
+				}
+			}
+		}
+	}
+	return out
+}
+
+// wrapperLocks: the entry lockset of a function literal: when its only use is as an argument of a lock wrapper, what the
+// wrapper holds around the call.
+func wrapperLocks(c *Ctx, fn *ssa.Function, depth int) lockset {
+	parent := fn.Parent()
+	var res lockset
+	okAll := true
+	n := 0
+	instrs(parent, func(b *ssa.BasicBlock, i int, in ssa.Instruction) {
+		var val ssa.Value
+		if mc, ok := in.(*ssa.MakeClosure); ok && mc.Fn == ssa.Value(fn) {
+			val = mc
+		}
+		if val == nil {
+			return
+		}
+		refs := val.(*ssa.MakeClosure).Referrers()
+		if refs == nil {
+			return
+		}
+		for _, ref := range *refs {
+			if _, isDbg := ref.(*ssa.DebugRef); isDbg {
+				continue
+			}
+			call, ok := ref.(*ssa.Call)
+			if !ok {
+				okAll = false
+				continue
+			}
+			ai := -1
+			for k, a := range call.Call.Args {
+				if a == val {
+					ai = k
+				}
+			}
+			if ai < 0 {
+				okAll = false
+				continue
+			}
+			n++
+			l := heldAroundParam(c, call, ai, depth)
+			if res == nil {
+				res = l
+			} else {
+				res = meetLocks(res, l)
+			}
+		}
+	})
+	// capture-free literals are used as plain function values
+	if n == 0 {
+		instrs(parent, func(b *ssa.BasicBlock, i int, in ssa.Instruction) {
+			call, ok := in.(*ssa.Call)
+			if !ok {
+				return
+			}
+			for k, a := range call.Call.Args {
+				if a == ssa.Value(fn) {
+					n++
+					l := heldAroundParam(c, call, k, depth)
+					if res == nil {
+						res = l
+					} else {
+						res = meetLocks(res, l)
+					}
+				}
+			}
+		})
+	}
+	if !okAll || n == 0 || res == nil {
+		return lockset{}
+	}
+	return res
 }
